@@ -136,16 +136,16 @@ Section svc.
       + intros dst d act Hin. eapply (ti_act _ Hti). by apply Hmi.
       + intros t0 a0 Ha0. rewrite Hact in Ha0. by eapply (ti_acts _ Hti).
       + destruct (ti_root _ Hti) as [R1 R2].
-        destruct Hrs as [o rest Hp Hq Hq' _ Hp' (H1&H2&H3) _ _
-                        |t rest _ Hp Hq Hq' Hp' (H1&H2&H3) _ _
-                        |t act rest _ Hp Hq Hq' Hp' H1 H2 H3 _ _
-                        |t act rest _ Hp Hq Hq' Hp' H1 H2 H3 _ _
+        destruct Hrs as [pre o rest Hp Hq Hq' _ Hp' (H1&H2&H3) _ _
+                        |pre t rest _ Hp Hq Hq' Hp' (H1&H2&H3) _ _
+                        |pre t act rest _ Hp Hq Hq' Hp' H1 H2 H3 _ _
+                        |pre t act rest _ Hp Hq Hq' Hp' H1 H2 H3 _ _
                         |_ Hp HB HS Hsv0 Hp' _ (H1&H2&H3) _ _
                         |_ Hp HB HS Hsv0 Hp' _ (H1&H2&H3) _ _
                         |_ Hp' _ (H1&H2&H3) _ _
                         |_ _ Hp' _ (H1&H2&H3) _ _
                         |st Hp _ Hp' _ (H1&H2&H3) _ _]; try (rewrite H3, H2; by split).
-        assert (Hin : msg_in s ARoot (MOk KS t act)) by (cbn; rewrite Hq; apply elem_of_list_here).
+        assert (Hin : msg_in s ARoot (MOk KS t act)) by (cbn; rewrite Hq; apply elem_of_mid).
         pose proof (ti_ok _ Hti _ _ _ _ Hin) as Hroot. cbn in Hroot.
         pose proof (ti_act _ Hti _ _ _ Hin) as Hact'.
         rewrite H3, H2. split.
